@@ -35,6 +35,7 @@ type Program struct {
 	mods      map[*ssa.Function]*modInfo
 	invCache  map[string]*ModSet
 	inlCache  map[*ssa.Function]bool
+	pureCache map[*ssa.Function]bool
 	specFuncs map[string]*SpecFunc
 	globalInit map[string]*GlobalFact
 }
